@@ -11,7 +11,8 @@ CFG = {'p_coarse': 0.2, 'p_periodic': 0.2, 'T': (3, 8), 'n_assets': (2, 5), 'nod
        'freqs': ['h', 'h', 'd', '30min', '2h'], 'units': ['h', 'd', 'min'], 'tzs': [None, 'CET', 'US/Eastern'],
        'kinds': {'SimpleContract': 2, 'Contract': 2, 'Transport': 2, 'Storage': 3, 'MultiCommodityContract': 2, 'OrderBook': 2,
                  'ExtendedTransport': 2, 'ScaledAsset': 3, 'StructuredAsset': 2}}
-SPECIAL = ['Plant', 'CHPAsset', 'CHPAsset_with_min_load_costs', 'LinkedAsset', 'Portfolio_grid_starts_in_repeated_hour', 'Portfolio_grid_ends_in_repeated_hour']
+SPECIAL = ['Plant', 'CHPAsset', 'CHPAsset_with_min_load_costs', 'LinkedAsset', 'Portfolio_grid_starts_in_repeated_hour', 'Portfolio_grid_ends_in_repeated_hour',
+           'Portfolio_wrapping_a_portfolio_with_another_grid']
 
 
 def run(ctx):
